@@ -325,10 +325,6 @@ func checkTransparency(c Case) Result {
 					norm    func(string) string
 					cl      string
 				}{
-					// auto "convenient errors": equal default responses are recognised
-					// when given by one $ref, not always when given as equal copies
-					{c.AllowKnown, func(s string) string { return defaultRe.ReplaceAllString(s, "") },
-						"convenient-errors-not-recognised-for-inlined-defaults"},
 					// the IR of a response component is built once, for the first
 					// referrer: with or without the StatusCode field
 					{sh.ResponseCodeAndPattern, func(s string) string {
@@ -354,6 +350,10 @@ func checkTransparency(c Case) Result {
 						sort.Strings(lines)
 						return strings.Join(lines, "\n")
 					}, "pathitem-ref-cached-path"},
+					// last (it erases every default response): auto "convenient errors": equal default responses are recognised
+					// when given by one $ref, not always when given as equal copies
+					{c.AllowKnown, func(s string) string { return defaultRe.ReplaceAllString(s, "") },
+						"convenient-errors-not-recognised-for-inlined-defaults"},
 				}
 				for _, st := range steps {
 					if !st.applies {
